@@ -39,6 +39,11 @@ func c17Versions(r *RNG) []c17Version {
 		v := c17Version{funcs: map[string]string{}, mode: fmt.Sprintf("init-v%d", k), limit: 100 + k}
 		var sb strings.Builder
 		sb.WriteString("package lib\n\nvar Count int\n\nvar Total float64\n\n")
+		// package variables without initialiser of every kind of type: they keep their values across reloads
+		sb.WriteString("type Shape interface {\n\tArea() int\n}\n\ntype Sq struct {\n\tS int\n}\n\nfunc (q *Sq) Area() int {\n\treturn q.S * q.S\n}\n\n")
+		sb.WriteString("var Cur Shape\n\nvar Box any\n\nvar Items []int\n\nvar Tab map[string]int\n\nvar Ptr *Sq\n\nvar Name string\n\n")
+		sb.WriteString("func SetAll(k int) {\n\tCur = &Sq{S: k}\n\tBox = k + 1\n\tItems = []int{k + 2}\n\tTab = map[string]int{\"k\": k + 3}\n\tPtr = &Sq{S: k + 4}\n\tName = \"n\"\n}\n\n")
+		sb.WriteString("func ReadAll() {\n\tprintln(Cur.Area(), Box, Items[0], len(Items), Tab[\"k\"], Ptr.S, Name)\n}\n\n")
 		fmt.Fprintf(&sb, "var Mode = %q\n\nvar Limit = %d\n\n", v.mode, 100+k)
 		sb.WriteString("type T struct {\n\tN int\n\tTag string\n}\n\n")
 		sb.WriteString("func Bump() {\n\tCount++\n\tTotal += 1.5\n}\n\nfunc SetMode(s string) {\n\tMode = s\n}\n\n")
@@ -89,7 +94,7 @@ func (v c17Version) loadLine() string {
 	for _, n := range v.order {
 		w = append(w, "f:"+n+"="+v.funcs[n])
 	}
-	w = append(w, "z:Count=0", "z:Total=0", "i:Mode="+v.mode, "i:Limit="+fmt.Sprint(v.limit))
+	w = append(w, "z:Count=0", "z:Total=0", "z:All=unset", "i:Mode="+v.mode, "i:Limit="+fmt.Sprint(v.limit))
 	return "rl load " + strings.Join(w, " ")
 }
 
@@ -146,6 +151,7 @@ func (c *Ctx) c17History() (lines, impl, want []string, script []string, fatal s
 		emit(vs[k].loadLine(), "ok", "ok")
 		c.Rep.Count("load-" + how)
 	}
+	allK := -1
 	emit("rl new", "ok", "ok")
 	load(0, "Load")
 	eval("import \"lib\"\ntype Holder struct {\n\tFn func() string\n}")
@@ -254,6 +260,20 @@ func (c *Ctx) c17History() (lines, impl, want []string, script []string, fatal s
 				}
 			}
 			c.Rep.Count("mutate-state")
+		case op < 88: // set / read the no-initialiser variables of interface, any, slice, map, pointer and string type
+			if allK < 0 || r.Intn(3) == 0 {
+				allK = r.Intn(50)
+				eval(fmt.Sprintf("lib.SetAll(%d)", allK))
+				emit(fmt.Sprintf("rl setvar All %d", allK), "ok", "ok")
+			}
+			got := eval("lib.ReadAll()")
+			wantAll := fmt.Sprintf("%d %d %d 1 %d %d n", allK*allK, allK+1, allK+2, allK+3, allK+4)
+			res := fmt.Sprint(allK)
+			if got != wantAll {
+				res = "ReadAll printed " + got + " instead of " + wantAll
+			}
+			emit("rl getvar All", res, fmt.Sprint(allK))
+			c.Rep.Count("read-typed-state")
 		default: // read package state
 			got := strings.Fields(eval("println(lib.Count, lib.Total, lib.Mode, lib.Limit)"))
 			for len(got) < 4 {
@@ -281,7 +301,7 @@ func runC17(c *Ctx) error {
 	c.Rep.Rule = "reload: one VM per history; 2..5 versions of a package with 1..5 functions and 1..3 methods whose bodies change, stay the same, appear in a later version or are left out of one; 8..37 steps of Load(version k) / Eval with an explicit import (reload of the current version, also of unchanged source) / capture of a function in a variable, a struct field, a slice element, of a bound method and of a bound method inside a struct field / new instance / call of everything captured and of every function and method by name / Bump, SetMode, instance Inc / read of the package variables (two without initialiser, two with); distinct = distinct history; non-trivial = at least two loads and one capture"
 	n := 60
 	if c.Thorough() {
-		n = 3000
+		n = 20000
 	}
 	var lines, impl []string
 	var starts []int
